@@ -6,6 +6,10 @@
 import EchoVerif.Lemmas.RootContent
 import EchoVerif.Lemmas.RootBytes
 import EchoVerif.Lemmas.RootWf
+import EchoVerif.Lemmas.RootAccum
+import EchoVerif.Lemmas.RootObs
+import EchoVerif.Lemmas.RootAccumOps
+import EchoVerif.Lemmas.WscFile
 
 namespace EchoVerif.C06
 open EchoVerif EchoVerif.Graph EchoVerif.Root
@@ -86,14 +90,48 @@ theorem stream_format_agrees :
     TagsOk storeTags := by
   refine ⟨by decide, by decide, by decide, by decide, ⟨by decide, by decide, by decide, by decide, by decide⟩⟩
 
-/-- **accum_agrees_partial.** (full statement: `accumBytes s r = rootBytes s r` for every state whose
-    stores and instance records are in sync.) Proved: the two streams are the same function of the
-    abstract content; what is left to the correspondence run (every C06.root/pair/ops case, both
-    digests compared with the real code) is `accContent (Acc.ofState s) r = content s r`. -/
-theorem accum_agrees_partial (s : WState) (r : NKey)
-    (h : accContent (Acc.ofState s) r = content s r) : accumPreimage s r = rootPreimage s r := by
+/-- **accum_agrees.** For every state with sorted maps in which every instance record has a store
+    (what `WarpState::upsert_instance` maintains), and every root key: the accumulator's table-driven
+    byte stream (`from_warp_state` + `compute_reachability` + `compute_state_root` over the flat
+    tables: global node/edge tables filtered by warp, edges filtered by source AND target and
+    regrouped by source) is the store path's stream. No hypothesis on the content walk is left:
+    the read-views coincide at every key, the fuels coincide, and the regrouped buckets equal the
+    store's buckets because the visited set is closed under out-edges (`reach_closed`). -/
+theorem accum_agrees (s : WState) (r : NKey) (hs : s.SortedAll)
+    (hk : ∀ w, (SMap.find? w s.instances).isSome = true → (s.store? w).isSome = true) :
+    accumPreimage s r = rootPreimage s r := by
   unfold accumPreimage rootPreimage accumBytes rootBytes
-  rw [h, stream_format_agrees.1, stream_format_agrees.2.1]
+  rw [accContent_ofState hs hk r, stream_format_agrees.1, stream_format_agrees.2.1]
+
+/-- **accum_agrees_ops.** For every state in which the instance table and the store set are in step
+    (`AccWF`: sorted maps, same key sets, instances stored under their own warp id — what `WarpState`
+    maintains and every accepted op preserves) and EVERY op list the store accepts
+    (`apply_ops_to_state`, portal validation included): `SnapshotAccumulator::apply_ops` does not hit
+    any of its `assert!`/`panic!` sites, ends in exactly `from_warp_state` of the store's post-state,
+    and its table-driven pre-image is the store path's pre-image of the post-state. By induction over
+    the op list; per op the flat tables are compared by sortedness + lookup (`Tracks`). -/
+theorem accum_agrees_ops (s s' : WState) (ops : List Op) (r : NKey) (hw : AccWF s)
+    (h : applyOps s ops = .ok s') :
+    (Acc.ofState s).applyOps ops = some (Acc.ofState s') ∧ AccWF s' ∧
+    accPreimageOf (Acc.ofState s') r = rootPreimage s' r := by
+  obtain ⟨h1, h2⟩ := applyOps_acc hw h
+  refine ⟨h1, h2, ?_⟩
+  obtain ⟨a', ha, hb⟩ := Root.accum_agrees_ops hw h r
+  rw [h1] at ha
+  cases ha
+  unfold accPreimageOf rootPreimage
+  rw [hb]
+
+/-- the hypothesis of `accum_agrees` is needed: with an instance record but no store the production
+    store path skips the warp (`debug_assert!(false); continue`) while the accumulator hashes its
+    header — the two streams differ. -/
+def exNoStore : WState :=
+  { stores := [(1, { nodes := [(1, 7)], edges := [], nodeAtt := [(1, .descend 2)], edgeAtt := [] })],
+    instances := [(1, { warp := 1, root := 1, parent := none }),
+                  (2, { warp := 2, root := 5, parent := some (AttKey.nodeAlpha 1 1) })] }
+
+theorem accum_needs_store : accumBytes exNoStore (1, 1) ≠ rootBytes exNoStore (1, 1) := by
+  decide +kernel
 
 /-- **root_injective_multi_partial.** For well-formed states (`StateOk`: ids < 2^256, lengths < 2^64,
     sorted node maps, no dangling edge sources): equal pre-images ⇒ equal reachable content, provided
@@ -101,7 +139,7 @@ theorem accum_agrees_partial (s : WState) (r : NKey)
     entries and buckets. The hypothesis cannot be dropped: `root_not_injective_multi`. -/
 theorem root_injective_multi_partial (s s' : WState) (r r' : NKey)
     (hs : StateOk s) (hs' : StateOk s') (hr : IdOk r.1 ∧ IdOk r.2) (hr' : IdOk r'.1 ∧ IdOk r'.2)
-    (hsh : Lock SameShape (content s r).insts (content s' r').insts)
+    (hsh : Lock Root.SameShape (content s r).insts (content s' r').insts)
     (h : rootBytes s r = rootBytes s' r') : content s r = content s' r' := by
   unfold rootBytes at h
   exact encode_inj_shape stream_format_agrees.2.2.2.2 (content_ok hs hr).1 (content_ok hs' hr').1 hsh
@@ -120,23 +158,73 @@ theorem root_injective_single (s s' : WState) (r r' : NKey)
   exact encode_inj_single stream_format_agrees.2.2.2.2 hc.1 hc'.1 hi hi'
     (hc.2 i (by rw [hi]; simp)) (hc'.2 i' (by rw [hi']; simp)) (List.append_cancel_left h)
 
-/-- **root_sensitive.** For well-formed states: any change of the reachable content that keeps the
-    shape — node type, attachment presence / kind / type id / bytes / length, edge type / target /
-    attachment, edge added to or removed from an existing bucket, instance root / parent key / plane,
-    portal target, the root key — changes the byte stream; and so does *any* change at all when a
-    single instance is reachable. With a collision-free hash the digest changes too. -/
+/-- **root_injective_typed.** Multi-instance injectivity with NO hypothesis on counts or shapes:
+    if some predicate `W` holds of every instance's warp id and of no node id (in both states), equal
+    pre-images imply equal reachable content. The colliding pair of C06-H violates exactly this (a
+    node whose id is another instance's warp id). -/
+theorem root_injective_typed (W : Nat → Prop) (s s' : WState) (r r' : NKey)
+    (hs : StateOk s) (hs' : StateOk s') (hr : IdOk r.1 ∧ IdOk r.2) (hr' : IdOk r'.1 ∧ IdOk r'.2)
+    (ht : TypedIds W s) (ht' : TypedIds W s')
+    (h : rootBytes s r = rootBytes s' r') : content s r = content s' r' := by
+  unfold rootBytes at h
+  exact encode_inj_regime stream_format_agrees.2.2.2.2 hs hs' hr hr' (Regime.typed W ht ht')
+    (List.append_cancel_left h)
+
+/-- **root_injective_hashed_ids.** Id universes produced like `make_warp_id` / `make_node_id`
+    (`Hid (prefix ++ label)` with two different prefixes of equal length — `b"warp:"`, `b"node:"` —
+    and a collision-free `Hid`): equal pre-images imply equal reachable content. -/
+theorem root_injective_hashed_ids (Hid : Bytes → Nat) (hH : Function.Injective Hid) (wp np : Bytes)
+    (hl : wp.length = np.length) (hne : wp ≠ np) (s s' : WState) (r r' : NKey)
+    (hs : StateOk s) (hs' : StateOk s') (hr : IdOk r.1 ∧ IdOk r.2) (hr' : IdOk r'.1 ∧ IdOk r'.2)
+    (hw : ∀ p, p ∈ s.instances → ∃ l, p.2.warp = Hid (wp ++ l))
+    (hn : ∀ ws, ws ∈ s.stores → ∀ n, n ∈ ws.2.nodes → ∃ l, n.1 = Hid (np ++ l))
+    (hw' : ∀ p, p ∈ s'.instances → ∃ l, p.2.warp = Hid (wp ++ l))
+    (hn' : ∀ ws, ws ∈ s'.stores → ∀ n, n ∈ ws.2.nodes → ∃ l, n.1 = Hid (np ++ l))
+    (h : rootBytes s r = rootBytes s' r') : content s r = content s' r' := by
+  refine root_injective_typed (fun n => ∃ l', n = Hid (wp ++ l')) s s' r r' hs hs' hr hr'
+    ⟨hw, ?_⟩ ⟨hw', ?_⟩ h
+  · intro ws hws n hnm
+    obtain ⟨l, e⟩ := hn ws hws n hnm
+    rw [e]; exact hashed_ids_typed Hid hH wp np hl hne l
+  · intro ws hws n hnm
+    obtain ⟨l, e⟩ := hn' ws hws n hnm
+    rw [e]; exact hashed_ids_typed Hid hH wp np hl hne l
+
+example : ([119, 97, 114, 112, 58] : Bytes).length = ([110, 111, 100, 101, 58] : Bytes).length ∧
+    ([119, 97, 114, 112, 58] : Bytes) ≠ [110, 111, 100, 101, 58] := by decide
+
+/-- **root_sensitive.** For well-formed states (`StateOk`, sorted maps, instances stored under their
+    own warp id) in any regime in which the stream is injective (`Regime`: typed id universe, OR equal
+    shapes, OR one reachable instance each — outside them C06-H applies): EVERY single semantic
+    difference at a reachable element changes the pre-image, and the digest under a collision-free
+    hash. One constructor of `Differs` per kind, each general in state/element/value:
+    * root key — `r ≠ r'`;
+    * instance root / parent key / plane / record removed — `Differs.inst` (`differs_set_instance`);
+    * node type, node removed from the reachable set — `Differs.node` left (`differs_set_node_type`);
+    * α attachment presence / Atom↔Descend / type id / bytes / length / portal target —
+      `Differs.node` right (`differs_set_node_att`);
+    * edge type / target / source, edge removed — `Differs.edge` left (`differs_set_edge`,
+      `differs_delete_edge`); β attachment (all of the above kinds) — `Differs.edge` right
+      (`differs_set_edge_att`);
+    * node / edge / instance ADDED to the reachable set — the same constructors with the two states
+      exchanged (third disjunct). -/
 theorem root_sensitive {D : Type} (H : Bytes → D) (hH : Function.Injective H)
     (s s' : WState) (r r' : NKey)
     (hs : StateOk s) (hs' : StateOk s') (hr : IdOk r.1 ∧ IdOk r.2) (hr' : IdOk r'.1 ∧ IdOk r'.2)
-    (hne : content s r ≠ content s' r')
-    (hshape : Lock SameShape (content s r).insts (content s' r').insts ∨
-      ∃ i i', (content s r).insts = [i] ∧ (content s' r').insts = [i']) :
+    (hsa : s.SortedAll) (hsa' : s'.SortedAll) (hk : WarpKeyed s) (hk' : WarpKeyed s')
+    (hreg : Regime s s' r r')
+    (hd : r ≠ r' ∨ Differs s s' r ∨ Differs s' s r') :
     H (rootBytes s r) ≠ H (rootBytes s' r') := by
   intro h
   have hb := hH h
-  rcases hshape with hsh | ⟨i, i', hi, hi'⟩
-  · exact hne (root_injective_multi_partial s s' r r' hs hs' hr hr' hsh hb)
-  · exact hne (root_injective_single s s' r r' hs hs' hr hr' hi hi' hb)
+  unfold rootBytes at hb
+  have hc := encode_inj_regime stream_format_agrees.2.2.2.2 hs hs' hr hr' hreg (List.append_cancel_left hb)
+  have h1 := content_eq_no_diff hsa' hk hk' hc
+  have h2 := content_eq_no_diff hsa hk' hk hc.symm
+  rcases hd with hd | hd | hd
+  · exact hd h1.1
+  · exact h1.2 hd
+  · exact h2.2 hd
 
 example : Function.Injective (id : Bytes → Bytes) := fun _ _ h => h
 
@@ -206,8 +294,60 @@ example : StateOk exState := by
   subst hp
   exact ⟨by simp [SMap.Sorted, SMap.Above, LinOrd.lt], by decide, by decide, by decide, by decide,
     by decide, by decide⟩
+def exStore : Store :=
+  { nodes := [(1, 7), (2, 7), (5, 8)], edges := [(9, { src := 1, dst := 2, ty := 3 })],
+    nodeAtt := [(2, .atom 4 [1, 2])], edgeAtt := [] }
+example : Differs exState (exState.putStore 1 { exStore with nodes := SMap.insert 2 9 exStore.nodes }) (1, 1) :=
+  differs_set_node_type (ty := 7) (ty' := 9) (st := exStore) (inst := { warp := 1, root := 1, parent := none })
+    (((reach_exact exState (1, 1)).2.1 (1, 2)).mp (by decide)) (by decide) (by decide) (by decide) (by decide)
+example : Regime exState exState (1, 1) (1, 1) := Regime.single _ _ rfl rfl
+example : TypedIds (fun n => n = hA ∨ n = hB) collide2 → False := fun h =>
+  h.nodes _ (List.mem_cons_of_mem _ List.mem_cons_self) (hB, _) (List.mem_cons_of_mem _ List.mem_cons_self) (Or.inr rfl)
 example : ContentOk (content collide1 (hA, 0)) ∧ ContentOk (content collide2 (hA, 0)) := by decide +kernel
-example : accContent (Acc.ofState exState) (1, 1) = content exState (1, 1) := by decide
-example : accContent (Acc.ofState collide1) (hA, 0) = content collide1 (hA, 0) := by decide +kernel
+example : exState.SortedAll ∧ ∀ w, (SMap.find? w exState.instances).isSome = true → (exState.store? w).isSome = true := by
+  refine ⟨⟨by simp [exState, SMap.Sorted, SMap.Above], ?_⟩, ?_⟩
+  · intro w st h
+    have : (w, st) ∈ exState.stores := SMap.find?_mem h
+    simp only [exState, List.mem_singleton, Prod.mk.injEq] at this
+    obtain ⟨_, rfl⟩ := this
+    simp [Store.Sorted4, SMap.Sorted, SMap.Above, LinOrd.lt]
+  · intro w h
+    have : w = 1 := by
+      cases hf : SMap.find? w exState.instances with
+      | none => rw [hf] at h; cases h
+      | some i =>
+        have := SMap.find?_mem hf
+        simp only [exState, List.mem_singleton, Prod.mk.injEq] at this
+        exact this.1
+    subst this; decide
+
+end EchoVerif.C06
+
+/-! ### the columnar snapshot format (Model/WscFile.lean, Lemmas/WscFile.lean; statements there) -/
+namespace EchoVerif.C06
+open EchoVerif EchoVerif.Graph EchoVerif.WscFile
+
+/-- **wsc_layout_agrees.** struct sizes, field lists, magic, tag bytes and alignment extracted from
+    wsc/{types,write,build}.rs are the ones the model's row encoders implement. -/
+theorem wsc_layout_agrees : type_of% @layout_agrees := @layout_agrees
+/-- **wsc_build_ok.** for every `WscOk` store `build_one_warp_input` hits neither the root assert nor
+    the `edge_ix` expect. -/
+theorem wsc_build_ok : type_of% @build_ok := @build_ok
+/-- **wsc_rows_roundtrip.** for every `WscOk` store the rows / index ranges / blob arena of
+    `build_one_warp_input` rebuild exactly the store and the root through the view accessors. -/
+theorem wsc_rows_roundtrip : type_of% @toStore_build := @toStore_build
+/-- **wsc_build_injective.** two `WscOk` stores with the same rows are equal (with their roots). -/
+theorem wsc_build_injective : type_of% @build_injective := @build_injective
+/-- **wsc_write_ok.** for every input the size assertion of `write_wsc_one_warp` holds and the file is
+    header ‖ dir entry ‖ nine sections with no padding byte. -/
+theorem wsc_write_ok : type_of% @write_ok := @write_ok
+/-- **wsc_build_order_free.** (rfl-like on the model: a `Store` has no insertion order; the real-code
+    claim is the oracle key `C06.wscb.order-dependent`.) -/
+theorem wsc_build_order_free : type_of% @WscFile.wsc_build_order_free := @WscFile.wsc_build_order_free
+/-- **wsc_roundtrip_partial.** build ok, write ok and flat, rows rebuild the store, node/edge
+    sections decode. MISSING: composition through `readFile`/`viewNew` and `validateView` accepting
+    build's rows (tie + oracle + kernel-checked example only). -/
+theorem wsc_roundtrip_partial : type_of% @WscFile.wsc_roundtrip_partial := @WscFile.wsc_roundtrip_partial
+example : WscOk sample 2 := sample_ok
 
 end EchoVerif.C06
